@@ -38,6 +38,14 @@ Mirrors, definition by definition,
 * `container/grid/map.hpp`                : `map` — `object(source.size, p ↦ f (source.get_unsafe p))`
 * `container/grid/apply.hpp`              : `apply` — all other sizes equal to the first ? `object(size, p ↦ f (g1[p], gs[p]…))` : `object()`
 * `container/grid/fill.hpp`               : `fill` — for every element of `make_pos_ref_range(grid)`: `value = f pos`
+* `container/grid/next_position.hpp`      : `nextFold`/`nextStep` — the same fold read literally (indexed reads and writes)
+* `container/grid/offset.hpp`, `contents` : `offsetW`, `contentsW` — the `std::size_t` instantiation, arithmetic modulo `2^w`
+* `container/grid/pos_ref_range_impl.hpp` : `fillRange` — assignment through every `pos_reference::value()` of a sub-range
+* `container/grid/object_impl.hpp`        : `mkRows` (static_row constructor), `copy`, `moveOut`, `swap`; `regStep` — one
+                                            special-member call (copy/move constructor, copy/move assignment incl. self,
+                                            member/free swap) between numbered objects
+* `container/grid/comparison.hpp`         : `Grid.eq` (size, then three-iterator `std::equal`), `ne`, `lt` (size
+                                            lexicographically, then `std::lexicographical_compare` of the cells), `gt`, `le`, `ge`
 * `container/grid/clamped_min.hpp`        : `clampedMin` — `max(p_i, 0)`
 * `container/grid/clamped_sup.hpp`        : `clampedSup` — `min(p_i, size_i)`
 * `container/grid/clamped_sup_signed.hpp` : `clampedSupSigned` — `math::clamp(p_i, 0, size_i).get_unsafe()`,
@@ -237,6 +245,110 @@ def fill (g : Grid α) (f : Pos → α) : Except Fault (Grid α) := do
 def fillRange (g : Grid α) (mn sp : Pos) (f : Pos → α) : Except Fault (Grid α) := do
   let ps ← posRange mn sp
   ps.foldlM (fun g p => g.setUnsafe p (f p)) g
+
+/-- `object(static_row(…), static_row(…)…)` (two-dimensional grids only): the cells are `array::join` of the rows in
+    the order given, `size_ = (row length of the first row, number of rows)`; equal row lengths are a `static_assert` -/
+def mkRows (r1 : List α) (rs : List (List α)) : Grid α :=
+  ⟨[(r1.length : Int), ((rs.length + 1 : Nat) : Int)], (r1 :: rs).flatten⟩
+
+/-! ### special members (`object_impl.hpp`): both members travel together -/
+
+/-- copy constructor / copy assignment (`= default`): `container_` and `size_` copied -/
+def copy (g : Grid α) : Grid α := ⟨g.size, g.cells⟩
+
+/-- move constructor / move assignment from another object: `container_` is moved (the source vector is left
+    empty), `size_` — a `dim` of integers — is copied.  Result: (new object, moved-from source) -/
+def moveOut (g : Grid α) : Grid α × Grid α := (⟨g.size, g.cells⟩, ⟨g.size, []⟩)
+
+/-- `a.swap(b)`: `container_.swap(other.container_); std::swap(size_, other.size_)`.  Result: (a, b) afterwards -/
+def swap (a b : Grid α) : Grid α × Grid α := (⟨b.size, b.cells⟩, ⟨a.size, a.cells⟩)
+
+end Grid
+
+/-- an object in a history of special-member calls; `moved`: it has been moved from and not assigned since
+    (its cells are unspecified by the standard; only `size()` is still what the code left there) -/
+structure Slot (α : Type) where
+  g : Grid α
+  moved : Bool
+  deriving Repr, BEq, DecidableEq
+
+/-- special-member operations between numbered objects -/
+inductive RegOp where
+  | copyCtor (dst src : Nat)    -- a new object `object(slot[src])` replaces slot `dst`
+  | moveCtor (dst src : Nat)    -- a new object `object(std::move(slot[src]))` replaces slot `dst`
+  | copyAssign (dst src : Nat)  -- `slot[dst] = slot[src]`, also with `dst = src`
+  | moveAssign (dst src : Nat)  -- `slot[dst] = std::move(slot[src])`, also with `dst = src` (`if (this == &other) return *this`)
+  | swapMember (a b : Nat)      -- `slot[a].swap(slot[b])`, also with `a = b`
+  | swapFree (a b : Nat)        -- `swap(slot[a], slot[b])`
+  deriving Repr, DecidableEq
+
+/-- one special-member call.  `none`: not a legal line (an index without object, a constructor from the object itself,
+    or a read of a moved-from object, whose value is unspecified) -/
+def regStep {α : Type} (st : List (Slot α)) : RegOp → Option (List (Slot α))
+  | .copyCtor d s =>
+    if d == s then none else
+    match st[s]?, st[d]? with
+    | some x, some _ => if x.moved then none else some (st.set d ⟨x.g.copy, false⟩)
+    | _, _ => none
+  | .copyAssign d s =>
+    match st[s]?, st[d]? with
+    | some x, some _ => if x.moved then none else some (st.set d ⟨x.g.copy, false⟩)
+    | _, _ => none
+  | .moveCtor d s =>
+    if d == s then none else
+    match st[s]?, st[d]? with
+    | some x, some _ => if x.moved then none else some ((st.set d ⟨x.g.moveOut.1, false⟩).set s ⟨x.g.moveOut.2, true⟩)
+    | _, _ => none
+  | .moveAssign d s =>
+    match st[s]?, st[d]? with
+    | some x, some _ =>
+      if d == s then some st       -- the self-assignment guard
+      else if x.moved then none else some ((st.set d ⟨x.g.moveOut.1, false⟩).set s ⟨x.g.moveOut.2, true⟩)
+    | _, _ => none
+  | .swapMember a b | .swapFree a b =>
+    match st[a]?, st[b]? with
+    | some x, some y => some ((st.set a ⟨(x.g.swap y.g).1, y.moved⟩).set b ⟨(x.g.swap y.g).2, x.moved⟩)
+    | _, _ => none
+
+/-- a history of special-member calls -/
+def regRun {α : Type} (st : List (Slot α)) : List RegOp → Option (List (Slot α))
+  | [] => some st
+  | op :: ops => (regStep st op).bind fun st' => regRun st' ops
+
+/-! ### comparison (`comparison.hpp`) -/
+
+/-- `std::equal(first1, last1, first2)` — the three-iterator form used by `fcppt::detail::equal`: it reads as many
+    elements of the second range as the first one has (past its end: `Fault.oob`) and stops at the first mismatch -/
+def equalPrefix {α : Type} [BEq α] : List α → List α → Except Fault Bool
+  | [], _ => .ok true
+  | _ :: _, [] => .error .oob
+  | x :: xs, y :: ys => if x == y then equalPrefix xs ys else .ok false
+
+/-- `std::lexicographical_compare(first1, last1, first2, last2)` with `operator<` -/
+def lexLess : List Int → List Int → Bool
+  | [], [] => false
+  | [], _ :: _ => true
+  | _ :: _, [] => false
+  | x :: xs, y :: ys => if x < y then true else if y < x then false else lexLess xs ys
+
+namespace Grid
+
+/-- `operator==`: `a.size() == b.size() && equal(a.begin(), a.end(), b.begin())` (short-circuit) -/
+def eq {α : Type} [BEq α] (a b : Grid α) : Except Fault Bool :=
+  if a.size == b.size then equalPrefix a.cells b.cells else .ok false
+
+/-- `operator!=` = `!(a == b)` -/
+def ne {α : Type} [BEq α] (a b : Grid α) : Except Fault Bool := (!·) <$> a.eq b
+
+/-- `operator<`: `a.size() != b.size() ? a.size() < b.size() : lexicographical_compare(cells)`;
+    `dim < dim` is `lexicographical_compare` over the components, `x` first -/
+def lt (a b : Grid Int) : Bool :=
+  if a.size != b.size then lexLess a.size b.size else lexLess a.cells b.cells
+
+/-- `operator>` = `b < a`, `operator<=` = `!(a > b)`, `operator>=` = `!(a < b)` -/
+def gt (a b : Grid Int) : Bool := b.lt a
+def le (a b : Grid Int) : Bool := !(a.gt b)
+def ge (a b : Grid Int) : Bool := !(a.lt b)
 
 end Grid
 
